@@ -46,6 +46,8 @@ static Json::Value genC03(Rng& rng) {
   o.killFailP = rng.pick({0.3, 0.7, 1.0});
   o.recursiveP = 0.7;
   o.churnP = 0.2;
+  o.kernelKillP = 0.2;
+  o.emptyOnFreezeP = 0.6;
   return genKillPlan(rng, o);
 }
 
